@@ -50,7 +50,7 @@ Proof. destruct d; simpl; auto. apply fl_list_same_refl. Qed.
 (* the model's output satisfies the executable property, for ALL well-formed cases of all three kinds *)
 Theorem spec_ok_on_model c : gwf O c = true -> gspec_ok O c (grun_case O c) = true.
 Proof.
-  destruct c as [bounds ops|fixed san global name ovs|n dur ops]; intros Hwf.
+  destruct c as [bounds ops|fixed san global name ovs|n dur ops|q fc fd]; intros Hwf.
   - apply spec_ok_on_model_hist.
   - simpl in Hwf. subst fixed. unfold grun_case, gspec_ok.
     change (if san then sanitize_name name else name) with (eff_key san name).
@@ -63,6 +63,7 @@ Proof.
     + exfalso. apply (proj1 T); reflexivity.
   - simpl in Hwf. apply andb_prop in Hwf as [H1 H2]. apply N.ltb_lt in H1, H2.
     unfold grun_case, gspec_ok. apply (rrun_spec_ok O n dur H1 H2 fsame_refl).
+  - discriminate.
 Qed.
 
 (* what an accepted override output means *)
@@ -85,7 +86,8 @@ Definition zadd (a b : option Z) : option Z :=
 Definition zsame (a b : option Z) : bool :=
   match a, b with Some x, Some y => (x =? y)%Z | None, None => true | _, _ => false end.
 Definition ZO : FloatOps :=
-  {| F := option Z; fle := zle; fadd := zadd; fzero := Some 0%Z; fpinf := Some 1000000%Z; fninf := Some (-1000000)%Z;
+  {| F := option Z; fle := zle; fadd := zadd; fzero := Some 0%Z; fone := Some 1%Z;
+     fclamp01 := fun q => match q with Some x => Some (Z.min (Z.max x 0) 1) | None => Some 0%Z end; fpinf := Some 1000000%Z; fninf := Some (-1000000)%Z;
      fisinf := fun _ => false; fwithin := fun q lo hi => zle lo q && zle q hi; fsame := zsame |}.
 
 Lemma zle_trans a b c : fle ZO a b = true -> fle ZO b c = true -> fle ZO a c = true.
